@@ -259,9 +259,23 @@ fn i_coq(i: &I) -> String {
 fn is_coq(l: &[I]) -> String {
     g::list(&l.iter().map(i_coq).collect::<Vec<_>>())
 }
+/// The calibration list as the program's CalibrationSet holds it: a definition with the signature
+/// (name, parameter pattern, qubit pattern) of an earlier one replaces it IN PLACE (C16's subject;
+/// the C18 model takes the resulting list).  Found by a seed-12345 run: without this the model
+/// saw the redefinition at the end of the list and picked another winner among equally specific
+/// matches.
+fn effective_cals(c: &Case) -> Vec<Cal> {
+    let mut out: Vec<Cal> = Vec::new();
+    for cal in &c.cals {
+        match out.iter_mut().find(|k| k.name == cal.name && k.ppat == cal.ppat && k.q == cal.q) {
+            Some(k) => *k = cal.clone(),
+            None => out.push(cal.clone()),
+        }
+    }
+    out
+}
 fn case_coq(c: &Case, v: &Verdict) -> String {
-    let cals: Vec<String> = c
-        .cals
+    let cals: Vec<String> = effective_cals(c)
         .iter()
         .map(|cal| {
             format!(
